@@ -20,6 +20,16 @@ for f in "$V"/selftest/refactors/*.diff; do
   id="$(basename "$f")"; [ -n "$PAT" ] && [[ "$id" != *$PAT* ]] && continue
   jobs+=("refactor|$f|C13 C14 C16|0")
 done
+# changes written here (not by sub-agents) to prove that a particular dimension bites
+for f in "$V"/selftest/*.diff; do
+  id="$(basename "$f")"; [ -n "$PAT" ] && [[ "$id" != *$PAT* ]] && continue
+  case "$id" in
+    preempt-*) prop=C16 ;;
+    c14-*) prop=C14 ;;
+    *) prop=C13 ;;
+  esac
+  jobs+=("selftest|$f|$prop|1")
+done
 run_one() {
   IFS='|' read -r kind patch props want <<<"$1"
   res="$(VERIF_WORKERS=8 "$V/run_patch.sh" "$patch" $props 2>&1)"
